@@ -659,9 +659,12 @@ HUGE_LITERALS = ['9^999999999', '7*(9^99999999)', '2^1024', '99^999', '2^9999999
                  'TEXTJOIN(",",TRUE,0-' + '9' * 5000 + ')',
                  # shapes whose cost grew with the SQUARE of their length (a pattern re-scanned from every position, a list copied
                  # once per item, a loop over the digits of a whole number of any size)
-                 'TEXT(1,"' + 'a' * 60000 + '0")', 'TEXT(1,"' + 'a' * 60000 + '0a")', 'a.' * 30000 + 'a', 'SUM(' + '1,' * 100000 + '1)',
-                 '{' + '1;' * 100000 + '1}', '{' + '1,2;' * 50000 + '1,2}', 'BASE(' + '1' * 60000 + ',2)', 'LEN(BASE(' + '7' * 40000 + ',36))',
-                 'F(' + '1\\' * 100000 + '1)']
+                 'TEXT(1,"' + 'a' * 60000 + '0")', 'TEXT(1,"' + 'a' * 60000 + '0a")', 'a.' * 30000 + 'a', 'SUM(' + '1,' * 40000 + '1)',
+                 '{' + '1;' * 40000 + '1}', '{' + '1,2;' * 20000 + '1,2}', 'BASE(' + '1' * 20000 + ',2)', 'LEN(BASE(' + '7' * 15000 + ',36))',
+                 'F(' + '1\\' * 40000 + '1)',
+                 # short formulas that spell whole numbers of a million bits (the cost of what is done with them is quadratic)
+                 'BASE(2^1000000,2)', 'LEN(2^1000000*2^1000000*2^1000000*2^1000000)', 'QUOTIENT(3^660000*3^660000*3^660000,7^370000*7^370000*7^370000)',
+                 'MOD(3^660000*3^660000,7^370000)', '(2^900000*2^900000)&""', 'CEILING(3^660000,7^370000)', 'BASE(2^200000,2)']
 
 
 class Blowups(Sub):
